@@ -32,7 +32,22 @@ type Script struct {
 	B     int    `json:"b"`   // receive ops blocked when Close is called
 	Ph    string `json:"ph"`  // idle pre cb post cancel
 	Reply bool   `json:"reply"`
+	K     int    `json:"k"`     // deliveries in flight (called, not met) when Close is called, in model units
+	W     int    `json:"w"`     // the model's worker count: K in {W, 2W} scales with the real worker count
+	Procs int    `json:"procs"` // GOMAXPROCS of the child process that runs this script (0: default)
 	Steps []Step `json:"steps"`
+}
+
+// backlogMult is the number of real deliveries per model delivery of the backlog: the model's W
+// stands for the number of worker goroutines a stack uses to deliver into its hub, which is
+// runtime.GOMAXPROCS(0) (or less) for every stack in the library.
+func (sc *Script) backlogMult() int {
+	if sc.W > 0 && sc.K >= sc.W {
+		if n := runtime.GOMAXPROCS(0) / sc.W; n > 1 {
+			return n
+		}
+	}
+	return 1
 }
 
 func loadScripts(path string) ([]Script, error) {
@@ -152,11 +167,15 @@ type cbInst struct{ release chan struct{} }
 func runScript(st *Stack, sc Script, caseID int, baseline map[int]bool, grace time.Duration) ([]Ev, []string) {
 	w := newWin(caseID)
 	phase := sc.Ph
+	if sc.Ph == "cbbacklog" {
+		phase = "cb+backlog"
+	}
 	if sc.Reply {
 		phase += "+reply"
 	}
+	mult := sc.backlogMult()
 	w.rec.log(Ev{Ev: "reset", Lvl: "stack", Comp: st.Name, Phase: phase,
-		Info: fmt.Sprintf("script=%d hub=%s b=%d", sc.ID, sc.Hub, sc.B)})
+		Info: fmt.Sprintf("script=%d hub=%s b=%d k=%d inflight=%d gomaxprocs=%d", sc.ID, sc.Hub, sc.B, sc.K, sc.K*mult, runtime.GOMAXPROCS(0))})
 	names := map[string]*Op{}
 	var gmu sync.Mutex
 	var held []*cbInst
@@ -269,7 +288,13 @@ func runScript(st *Stack, sc Script, caseID int, baseline map[int]bool, grace ti
 		case "RCall":
 			startRecv(s.Op)
 		case "DCall":
-			startDeliver(s.Op)
+			if s.Pc == "backlog" {
+				for i := 0; i < mult; i++ {
+					startDeliver(fmt.Sprintf("%s#%d", s.Op, i))
+				}
+			} else {
+				startDeliver(s.Op)
+			}
 		case "Cancel":
 			if op := names[s.Op]; op != nil {
 				w.cancelOp(op)
@@ -279,6 +304,20 @@ func runScript(st *Stack, sc Script, caseID int, baseline map[int]bool, grace ti
 			kind := "close"
 			if nclose > 0 {
 				kind = "close2"
+			}
+			if nclose == 0 && (sc.Ph == "backlog" || sc.Ph == "cbbacklog") {
+				// the backlog is IN the stack when Close is called: the peer's Tells have returned
+				// (an Ask only returns when served) and the stack's workers had time to pick them up
+				deadline := time.Now().Add(500 * time.Millisecond)
+				for _, op := range w.pending() {
+					if op.kind == "tell" {
+						select {
+						case <-op.done:
+						case <-time.After(time.Until(deadline)):
+						}
+					}
+				}
+				time.Sleep(40 * time.Millisecond)
 			}
 			nclose++
 			names[s.Op] = w.start(kind, 0, 0, func(ctx context.Context) (string, int) {
@@ -322,23 +361,37 @@ func runScript(st *Stack, sc Script, caseID int, baseline map[int]bool, grace ti
 			}
 		}
 	}
+	weakDeadline := time.Now().Add(300 * time.Millisecond)
 	for _, op := range w.stop() {
 		if (op.kind == "tell" || op.kind == "ask") && !op.returned() {
 			op.cancel()
+		}
+	}
+	for _, op := range w.stop() {
+		if op.kind == "tell" || op.kind == "ask" {
 			select {
 			case <-op.done:
-			case <-time.After(200 * time.Millisecond):
+			case <-time.After(time.Until(weakDeadline)):
 			}
 		}
 	}
 	// goroutine release: after the peer is closed too, nothing the library started may remain
 	st.Cleanup()
 	var leakFns []string
-	deadline := time.Now().Add(grace)
+	graceStart := time.Now()
+	deadline := graceStart.Add(grace)
+	extended := 0
 	for {
 		lk := leaked(baseline)
 		if len(lk) == 0 {
 			break
+		}
+		if time.Now().After(deadline) && extended < 2 && hb.stalledSince(graceStart) {
+			// the machine stalled during the grace period: measure again
+			extended++
+			graceStart = time.Now()
+			deadline = graceStart.Add(grace)
+			continue
 		}
 		if time.Now().After(deadline) {
 			for fn, gs := range lk {
@@ -420,20 +473,56 @@ func runMatrix(out, scriptsPath, stacksCSV string, seed int64, caseBase int) err
 		evs []byte
 		err error
 	}
-	results := make([]result, len(kinds))
+	// one group of scripts per GOMAXPROCS value; every (stack kind, group) is a child process
+	procsOf := []int{}
+	groups := map[int][]Script{}
+	for _, s := range scripts {
+		if _, ok := groups[s.Procs]; !ok {
+			procsOf = append(procsOf, s.Procs)
+		}
+		groups[s.Procs] = append(groups[s.Procs], s)
+	}
+	type unit struct {
+		kind    string
+		procs   int
+		scripts []Script
+		path    string
+	}
+	var units []unit
+	for gi, procs := range procsOf {
+		path := fmt.Sprintf("%s.scripts.%d", out, gi)
+		f, err := os.Create(path)
+		if err != nil {
+			return err
+		}
+		enc := json.NewEncoder(f)
+		for i := range groups[procs] {
+			enc.Encode(&groups[procs][i])
+		}
+		f.Close()
+		defer os.Remove(path)
+		for _, kind := range kinds {
+			units = append(units, unit{kind, procs, groups[procs], path})
+		}
+	}
+	results := make([]result, len(units))
 	var wg sync.WaitGroup
-	for ki, kind := range kinds {
+	for ki, u := range units {
 		wg.Add(1)
-		go func(ki int, kind string) {
+		go func(ki int, u unit) {
 			defer wg.Done()
+			kind, scripts, scriptsPath := u.kind, u.scripts, u.path
 			base := caseBase + (ki+1)*100000
 			var all bytes.Buffer
 			from := 0
 			for attempt := 0; from < len(scripts) && attempt < 6; attempt++ {
-				tmp := fmt.Sprintf("%s.%s.%d", out, kind, attempt)
+				tmp := fmt.Sprintf("%s.%s.%d.%d", out, kind, ki, attempt)
 				ctx, cf := context.WithTimeout(context.Background(), time.Duration(len(scripts)-from)*12*time.Second+30*time.Second)
 				cmd := exec.CommandContext(ctx, self, "-mode", "matrix-child", "-stack", kind, "-scripts", scriptsPath,
 					"-out", tmp, "-from", strconv.Itoa(from), "-casebase", strconv.Itoa(base))
+				if u.procs > 0 {
+					cmd.Env = append(os.Environ(), "GOMAXPROCS="+strconv.Itoa(u.procs))
+				}
 				var stderr bytes.Buffer
 				cmd.Stderr = &stderr
 				cmd.Stdout = io.Discard
@@ -479,7 +568,7 @@ func runMatrix(out, scriptsPath, stacksCSV string, seed int64, caseBase int) err
 				from = crashed + 1
 			}
 			results[ki].evs = all.Bytes()
-		}(ki, kind)
+		}(ki, u)
 	}
 	wg.Wait()
 	f, err := os.Create(out)
@@ -487,7 +576,7 @@ func runMatrix(out, scriptsPath, stacksCSV string, seed int64, caseBase int) err
 		return err
 	}
 	defer f.Close()
-	for ki := range kinds {
+	for ki := range units {
 		if results[ki].err != nil {
 			return results[ki].err
 		}
